@@ -19,7 +19,7 @@ from vlib import refber as rb
 LEVEL = "fault_enumeration"
 
 FAULTS = ["deliver", "deliver", "deliver", "dup", "hold", "rid+1", "rid-1", "rid_rand", "rid_other", "rid_wide", "community", "version",
-          "msgid", "msgid_wide", "user", "engine", "truncate", "drop"]
+          "msgid", "msgid_wide", "user", "engine", "near", "truncate", "drop"]
 # ids that agree with the real one in their low 31/32 bits or differ only in width (5..8 content octets)
 WIDE = [1 << 32, -(1 << 32), 5 << 40, 1 << 31, -(1 << 31), 1 << 62, -(1 << 63), 3 << 32, (1 << 32) + (1 << 31)]
 BASE = (1, 3, 6, 1, 2, 1, 7)
@@ -107,6 +107,26 @@ def emit(cfg, parsed, src, fault, param):
     elif fault == "engine":
         if cfg.version == "v3":
             kw["engine_id"] = OTHER_ENGINE
+    elif fault == "near":
+        # credentials that differ from the session's only by an appended / removed / changed octet (prefix tests, case folding ...)
+        k = param % 6
+        if cfg.version == "v3":
+            e = cfg.engine_id
+            if k == 0:
+                kw["engine_id"] = e + b"\x00"
+            elif k == 1:
+                kw["engine_id"] = e + bytes([param & 0xFF, 1, 2, 3])
+            elif k == 2:
+                kw["engine_id"] = e[:-1]
+            elif k == 3:
+                kw["engine_id"] = e[:-1] + bytes([e[-1] ^ 1])
+            elif k == 4:
+                kw["user"] = cfg.user.encode()[:-1]
+            else:
+                kw["user"] = cfg.user.upper().encode() if cfg.user.upper() != cfg.user else cfg.user.encode() + b"\x00"
+        else:
+            cm = cfg.community.encode()
+            kw["community"] = [cm + b"\x00", cm[:-1], cm.upper() if cm.upper() != cm else cm + b"1", cm + cm, b" " + cm, cm[:-1] + bytes([cm[-1] ^ 1])][k]
     m = ag.build_reply(cfg, req, vb, **kw)
     if fault == "truncate":
         m = m[:1 + param % (len(m) - 1)]  # never empty: asyncio transports silently drop empty datagrams
